@@ -73,6 +73,12 @@ func (c *Conversation) calcDHSharedSecret() *big.Int {
 }
 
 func (c *Conversation) generateEncryptedSignature(key *akeKeys) ([]byte, error) {
+	if c.ourCurrentKey == nil {
+		// a conversation without a long-term key can get this far (the version is committed to before the
+		// key is looked for): there is nothing to sign with
+		return nil, newOtrError("no possible key for current version")
+	}
+
 	verifyData := appendAll(c.ake.ourPublicValue, c.ake.theirPublicValue, c.ourCurrentKey.PublicKey(), c.ake.keys.ourKeyID)
 
 	mb := sumHMAC(key.m1, verifyData, c.version)
